@@ -304,7 +304,9 @@ MalformedFrames ==
     << 129, 203, 0, 0 >> }                                                \* BYE claiming a source it does not hold
 TailJunk ==
   { << 128 >>, << 128, 200, 0 >>, << 129, 206, 0, 2, 1, 2, 3, 4 >>,       \* PLI cut after 8 of 12 octets
-    << 128, 200, 255, 255 >> }                                            \* header announcing 262144 octets
+    << 128, 200, 255, 255 >>,                                             \* header announcing 262144 octets
+    \* length fields whose octet count wraps 16 bits: 4 * (0x3FFF + 1) = 65536, 4 * (0x4000 + 1) = 65540, 4 * (0x4001 + 1) = 65544
+    << 128, 192, 63, 255 >>, << 128, 192, 64, 0 >>, << 129, 203, 64, 1, 1, 2, 3, 4 >>, << 129, 206, 64, 2, 1, 2, 3, 4, 5, 6, 7, 8 >> }
 DispatchPTs(all) == IF all THEN 0..255 ELSE {0, 1, 72, 127, 128, 191, 192, 193, 194, 195, 196, 197, 198, 199, 200, 201, 202, 203, 204, 205, 206, 207, 208, 209, 210, 223, 254, 255}
 NearestKind(pt, c) ==
   IF Kind({}, pt, c) # "RAW" THEN Kind({}, pt, c)
